@@ -25,7 +25,15 @@ unsafe impl GlobalAlloc for Counting {
         // fresh pages from the OS are zero, which would hide a forgotten initialisation (for
         // example in `boxed()`): hand out dirty memory instead
         if !p.is_null() {
-            std::ptr::write_bytes(p, 0xA5, l.size());
+            const LIMIT: usize = 64 << 20;
+            if l.size() <= LIMIT {
+                std::ptr::write_bytes(p, 0xA5, l.size());
+            } else {
+                // multi-gigabyte reservations (capacities around 2^32) are only dirtied at both ends, so that
+                // the untouched middle stays unbacked by memory
+                std::ptr::write_bytes(p, 0xA5, 1 << 16);
+                std::ptr::write_bytes(p.add(l.size() - (1 << 16)), 0xA5, 1 << 16);
+            }
         }
         p
     }
